@@ -13,6 +13,10 @@ fn wit(a: &RefAddr, tid: &[u8; 12]) -> Value {
 }
 
 pub fn check_xor(ctx: &mut Ctx, a: &RefAddr, tid: &[u8; 12], through_message: bool) {
+    if through_message || (tid[11] ^ a.port as u8 ^ a.ip[3]) % 8 == 0 {
+        const TYPES: [u16; 7] = [0x0020, 0x0012, 0x0016, 0x0001, 0x802b, 0x8023, 0xffff];
+        check_helpers(ctx, a, tid, TYPES[(a.port as usize ^ tid[0] as usize) % TYPES.len()]);
+    }
     ctx.eval();
     let w = || wit(a, tid);
     let std_addr = a.to_std();
@@ -136,6 +140,54 @@ pub fn check_xor(ctx: &mut Ctx, a: &RefAddr, tid: &[u8; 12], through_message: bo
                 // IPv4 does not depend on the transaction id at all
                 ctx.violation("C13", "ipv4-independent-of-tid", "XorMappedAddress::addr", fam, w, format!("{std_addr}"), format!("{other:?}"));
             }
+        }
+    }
+}
+
+/// The public helper types the attribute is made of (other crates build XOR-PEER-ADDRESS,
+/// XOR-RELAYED-ADDRESS, MAPPED-ADDRESS ... from them): `XorSocketAddr::{xor_addr,new,to_raw,from_raw}`
+/// and `MappedSocketAddr::{new,to_raw,from_raw,addr,length}` under any attribute type.
+pub fn check_helpers(ctx: &mut Ctx, a: &RefAddr, tid: &[u8; 12], ty: u16) {
+    use stun_types::attribute::{MappedSocketAddr, XorSocketAddr};
+    ctx.eval();
+    let w = || wit(a, tid);
+    let std_addr = a.to_std();
+    let t = imp::tid_from_bytes(tid);
+    let fam = if a.v6 { "ipv6,helper-types" } else { "ipv4,helper-types" };
+    let r = guard(|| {
+        let xored = XorSocketAddr::xor_addr(std_addr, t);
+        let twice = XorSocketAddr::xor_addr(xored, t);
+        let x = XorSocketAddr::new(std_addr, t);
+        let raw = x.to_raw(AttributeType::new(ty));
+        let xdec = XorSocketAddr::from_raw(&raw).map(|d| (XorSocketAddr::xor_addr(d.addr.addr(), t), d.length(), d == x)).map_err(|e| format!("{e:?}"));
+        let m = MappedSocketAddr::new(std_addr);
+        let mraw = m.to_raw(AttributeType::new(ty));
+        let mdec = MappedSocketAddr::from_raw(&mraw).map(|d| (d.addr(), d.length())).map_err(|e| format!("{e:?}"));
+        let shown = format!("{m} {x} {m:?} {x:?}").len();
+        (xored, twice, raw.get_type().value(), raw.value.to_vec(), x.length(), xdec, mraw.get_type().value(), mraw.value.to_vec(), m.length(), m.addr(), mdec, shown)
+    });
+    match r {
+        Err(p) => ctx.violation("C13", "no-panic", "XorSocketAddr / MappedSocketAddr", fam, w, "value".into(), format!("panic: {} at {}", p.msg, p.loc)),
+        Ok((xored, twice, xty, xwire, xlen, xdec, mty, mwire, mlen, maddr, mdec, _shown)) => {
+            let want_x = ref_encode(Kind::XorMappedAddress, &RefVal::Addr(a.clone()), tid).unwrap();
+            let want_m = ref_encode(Kind::AlternateServer, &RefVal::Addr(a.clone()), tid).unwrap();
+            let want_xored = a.xor(tid).to_std();
+            if xored != want_xored || twice != std_addr {
+                ctx.violation("C13", "wire-encoding", "XorSocketAddr::xor_addr", fam, w, format!("{want_xored}, and {std_addr} when applied twice"), format!("{xored}, {twice}"));
+            }
+            if xty != ty || xwire != want_x || xlen as usize != want_x.len() {
+                ctx.violation("C13", "wire-encoding", "XorSocketAddr::to_raw", fam, w, format!("type {ty:#06x} {}", hex(&want_x)), format!("type {xty:#06x} len {xlen} {}", hex(&xwire)));
+            }
+            if xdec != Ok((std_addr, want_x.len() as u16, true)) {
+                ctx.violation("C13", "decode-wire", "XorSocketAddr::from_raw", fam, w, format!("{std_addr}"), format!("{xdec:?}"));
+            }
+            if mty != ty || mwire != want_m || mlen as usize != want_m.len() || maddr != std_addr {
+                ctx.violation("C13", "wire-encoding", "MappedSocketAddr::to_raw", fam, w, format!("type {ty:#06x} {}", hex(&want_m)), format!("type {mty:#06x} len {mlen} {} addr {maddr}", hex(&mwire)));
+            }
+            if mdec != Ok((std_addr, want_m.len() as u16)) {
+                ctx.violation("C13", "decode-wire", "MappedSocketAddr::from_raw", fam, w, format!("{std_addr}"), format!("{mdec:?}"));
+            }
+            ctx.count("helper-type-checks");
         }
     }
 }
@@ -358,6 +410,7 @@ pub fn run(ctx: &mut Ctx) {
             ctx.sample("random", || wit(&a, &t));
         }
     }
+    ctx.require("helper-type-checks", 10_000);
     ctx.require("ipv4", 100_000);
     ctx.require("ipv6", 100_000);
     ctx.require("special-range-addresses", 1_000);
